@@ -4,6 +4,10 @@ usage: tools_benign.py locals <relpath> [name ...]   rename let-bound / closure 
        tools_benign.py edit <relpath> <old> <new>    textual edit claimed to be behaviour preserving
 Applies the edit to /repo, compiles (default, unsafe, strict-parser, unchecked), runs every claimed quick check with the fact cache, reverts."""
 import json, os, re, subprocess, sys
+TIER = "quick"
+if "--thorough" in sys.argv:
+    sys.argv.remove("--thorough")
+    TIER = "thorough"
 mode, rel = sys.argv[1], sys.argv[2]
 p = os.path.join("/repo", rel)
 src = open(p).read()
@@ -71,7 +75,7 @@ try:
         bad = 0
         for c in m["checks"]:
             pid = c["property_id"]
-            r = subprocess.run(["./check", pid, "--tier", "quick"], cwd="/verif", capture_output=True, text=True, env=env)
+            r = subprocess.run(["./check", pid, "--tier", TIER], cwd="/verif", capture_output=True, text=True, env=env)
             if r.returncode != 0:
                 bad += 1
                 print("== %s ALARM" % pid)
